@@ -8,6 +8,8 @@ import (
 
 	"github.com/freeconf/yang/node"
 	"github.com/freeconf/yang/nodeutil"
+	"github.com/freeconf/yang/parser"
+	"github.com/freeconf/yang/val"
 
 	"verif/core"
 	"verif/dp"
@@ -133,7 +135,66 @@ func deepSchema(depth int) (*dp.Schema, *dp.DNode) {
 	return s, root
 }
 
+// enumNames: an enum name is an arbitrary string (RFC 7950 9.6.4); in by-name mode it is a JSON string like any other
+func (p c15) enumNames(c *core.Ctx) {
+	names := []string{"plain", "3.5\" floppy", "c:\\temp", "tab\there", "two words", "é世", "</script>", "{}", "a,b", "nl\nx"}
+	var enums strings.Builder
+	for i, n := range names {
+		q := strings.NewReplacer("\\", "\\\\", "\"", "\\\"", "\n", "\\n", "\t", "\\t").Replace(n)
+		fmt.Fprintf(&enums, " enum \"%s\" { value %d; }", q, i*3)
+	}
+	text := "module en { namespace \"urn:en\"; prefix en; revision 2020-01-01; typedef et { type enumeration {" + enums.String() + " } }\n" +
+		" leaf e { type et; } leaf-list el { type et; } leaf u { type union { type int8; type et; } } list l { key k; leaf k { type et; } leaf v { type string; } } }"
+	m, err := parser.LoadModuleFromString(nil, text)
+	if err != nil {
+		c.Violate("enum-names/load", "%v\n%s", err, text)
+		return
+	}
+	for i, n := range names {
+		for _, asIds := range []bool{false, true} {
+			c.Eval()
+			c.Shape("enum-name/%d/ids=%v", i, asIds)
+			e := val.Enum{Id: i * 3, Label: n}
+			data := map[string]interface{}{"e": e, "el": val.EnumList{e, {Id: 0, Label: names[0]}}, "u": e,
+				"l": map[string]interface{}{n: map[string]interface{}{"k": e, "v": "x"}}}
+			var js string
+			var werr error
+			if c.Guard("write enum "+n, func() {
+				w := nodeutil.JSONWtr{EnumAsIds: asIds}
+				js, werr = w.JSON(node.NewBrowser(m, nodeutil.ReflectChild(data)).Root())
+			}) {
+				continue
+			}
+			if werr != nil {
+				c.Violate("enum-names/write-error", "writing enum %q: %v", n, werr)
+				continue
+			}
+			var top map[string]interface{}
+			if e := jsonUnmarshal(js, &top); e != nil {
+				c.Violate("enum-names/malformed", "enum name %q (ids=%v) gives malformed JSON: %v\n%s", n, asIds, e, js)
+				continue
+			}
+			var want interface{} = n
+			if asIds {
+				want = float64(i * 3)
+			}
+			el, _ := top["el"].([]interface{})
+			ll, _ := top["l"].([]interface{})
+			var lk interface{}
+			if len(ll) == 1 {
+				lk = ll[0].(map[string]interface{})["k"]
+			}
+			if top["e"] != want || len(el) != 2 || el[0] != want || top["u"] != want || lk != want {
+				c.Violate("enum-names/value-changed", "enum name %q (ids=%v) is written as e=%v el=%v u=%v key=%v\n%s", n, asIds, top["e"], el, top["u"], lk, js)
+			}
+		}
+	}
+}
+
 func (p c15) Run(c *core.Ctx, idx int) {
+	if idx == 0 {
+		p.enumNames(c)
+	}
 	r := c.Rand
 	var s *dp.Schema
 	var t *dp.DNode
@@ -143,7 +204,7 @@ func (p c15) Run(c *core.Ctx, idx int) {
 		c.Count("deep_schemas")
 	} else {
 		o := dp.DefaultGen()
-		o.Choices = idx%3 == 0
+		o.Choices = idx%3 == 0 || idx%6 == 1 // with the augmenting module half of the time: cases and case members from another module
 		o.Aug = idx%3 == 1
 		o.Presence = true
 		o.MaxDepth = 2 + r.Intn(3)
